@@ -56,7 +56,7 @@ inline Entries entries(const Node& m, const char* ctx) {
     for (size_t i = 0; i + 1 < m.kids.size(); i += 2) {
         const Node& k = m.kids[i];
         if (!k.is_int()) throw SchemaError(std::string(ctx) + ": non-integer key");
-        if (k.arg > (uint64_t)INT64_MAX) throw SchemaError(std::string(ctx) + ": key out of range");
+        if (k.arg > (uint64_t)INT64_MAX) continue;   // integer keys beyond the int64 range are legal CBOR and certainly unknown to RFC 8618: ignored
         int64_t kv = k.is_uint() ? (int64_t)k.arg : -1 - (int64_t)k.arg;
         if (!seen.insert(kv).second) throw SchemaError(std::string(ctx) + ": duplicate key " + std::to_string(kv));
         e.push_back({kv, &m.kids[i + 1]});
